@@ -124,6 +124,15 @@ Theorem C10_hashws_names_safe : forall (h : str -> str) (st : study) (i : inst) 
 Proof. exact sname_digest. Qed.
 Print Assumptions C10_hashws_names_safe.
 
+(** The sanitiser leaves digests (non-empty lower-case hex strings) alone, so
+    with --hashws H10's hypothesis on the combination strings is exactly
+    "the digest function is injective on them". *)
+Theorem C10_hashws_digest_injective : forall (h : str -> str) (a b : str),
+  is_digest (h a) -> is_digest (h b) -> (h a = h b -> a = b) ->
+  sanitize (wkey h true a) = sanitize (wkey h true b) -> a = b.
+Proof. exact hashws_combos_injective. Qed.
+Print Assumptions C10_hashws_digest_injective.
+
 (** ** the monitor *)
 
 (** Under H10 the model satisfies the monitor (all five conjuncts). *)
